@@ -17,6 +17,19 @@ Definition pr_field (f : bool * list ascii) : string :=
 Definition is_boolean_text (d : list ascii) : bool :=
   String.eqb (string_of_bytes d) "true" || String.eqb (string_of_bytes d) "false".
 
+(* a map[string]any source, pre-order: s/S string / *string, b/B []byte / *[]byte, i another value,
+   o0/o1/o2 a nested map / *map / **map opens, c it closes *)
+Definition pr_tok (t : tok) : string :=
+  match t with
+  | TText false true d => "s" ++ hex_of_bytes d
+  | TText true true d => "S" ++ hex_of_bytes d
+  | TText false false d => "b" ++ hex_of_bytes d
+  | TText true false d => "B" ++ hex_of_bytes d
+  | TOther => "i"
+  | TOpen n => "o" ++ nat_to_string n
+  | TClose => "c"
+  end.
+
 (* the assign operations carry the integer whose decimal rendering is the data *)
 Definition pr_op (o : op) : string :=
   match o with
@@ -34,6 +47,11 @@ Definition pr_op (o : op) : string :=
   | OCopyInto fs _ => "CI:" ++ join "," (map pr_field fs)
   | OAssignBytesInto k d _ =>
     (if is_boolean_text d then "YIb:" else "YI:") ++ nat_to_string k ++ ":" ++ string_of_bytes d
+  | OSource isstr d => "X:" ++ (if isstr then "s" else "b") ++ hex_of_bytes d
+  | OCopyMap reuse ts _ => (if reuse then "MI:" else "M:") ++ join "," (map pr_tok ts)
+  | OCopyStrings reuse ss ds l _ =>
+    (if reuse then "LI:" else "L:") ++ (if ss then "s" else "b") ++ (if ds then "s" else "b") ++ ":" ++
+    join "," (map (fun d => "x" ++ hex_of_bytes d) l)
   end.
 
 (* ---------- printing observations ---------- *)
@@ -62,11 +80,15 @@ Definition has_reset (ops : list op) : bool :=
   existsb (fun o => match o with OReset => true | _ => false end) ops.
 (* a CopyTo / buffered Assign into a destination that is not fresh *)
 Definition has_reuse (ops : list op) : bool :=
-  existsb (fun o => match o with OCopyInto _ _ | OAssignBytesInto _ _ _ => true | _ => false end) ops.
+  existsb (fun o => match o with OCopyInto _ _ | OAssignBytesInto _ _ _ | OCopyMap true _ _ | OCopyStrings true _ _ _ _ => true
+                            | _ => false end) ops.
+(* CopyTo of a built-in inspector (map[string]any, []string / [][]byte), or a source value under observation *)
+Definition has_builtin (ops : list op) : bool :=
+  existsb (fun o => match o with OCopyMap _ _ _ | OCopyStrings _ _ _ _ _ | OSource _ _ => true | _ => false end) ops.
 
 Definition case_line (id : string) (capname : string) (size : nat) (ops : list op) : string :=
   let tags := capname ++ (if has_client ops then ",client" else "") ++ (if has_reset ops then ",reset" else "") ++
-              (if has_reuse ops then ",reuse" else "") in
+              (if has_reuse ops then ",reuse" else "") ++ (if has_builtin ops then ",builtin" else "") in
   id ++ tab ++ tags ++ tab ++
   "cap=" ++ nat_to_string size ++ ";" ++ join ";" (map pr_op ops) ++ tab ++
   join "|" (trace true pr_state_model (init size) ops) ++ tab ++
@@ -79,7 +101,9 @@ Definition adds (o : op) : nat :=
   match o with
   | OBufferize _ _ | OBufferizeString _ _ | OAssignBytes _ _ | OAssignStr _ _ => 1
   | OCopyTo fs _ | OCopyInto fs _ => List.length fs
-  | OBufferizeFrom _ _ | OAssignBytesInto _ _ _ => 1
+  | OBufferizeFrom _ _ | OAssignBytesInto _ _ _ | OSource _ _ => 1
+  | OCopyMap _ ts _ => 2 * List.length (items_of_toks ts)
+  | OCopyStrings _ _ _ l _ => 2 * List.length l
   | _ => 0
   end.
 
@@ -105,11 +129,69 @@ Definition first_len (ops : list op) : nat :=
   | OBufferize d _ :: _ | OBufferizeString d _ :: _ | OAcqRel d _ :: _
   | OAssignBytes d _ :: _ | OAssignStr d _ :: _ => List.length d
   | OCopyTo ((_, d) :: _) _ :: _ | OCopyInto ((_, d) :: _) _ :: _ => List.length d
+  | OSource _ d :: _ | OCopyStrings _ _ _ (d :: _) _ :: _ => List.length d
+  | OCopyMap _ ts _ :: _ => match items_of_toks ts with (_, _, d) :: _ => List.length d | [] => 1 end
   | _ => 1
   end.
 
 Definition caps_of (ops : list op) : list (string * nat) :=
   [("cap0", 0); ("capT", Nat.max 1 (first_len ops)); ("capR", 4096)].
+
+(* ---------- CopyTo of the built-in inspectors: [before] ++ [the copy] ++ [after] ---------- *)
+Definition tS := TText false true.   (* string *)
+Definition tSp := TText true true.   (* *string *)
+Definition tB := TText false false.  (* []byte *)
+Definition tBp := TText true false.  (* *[]byte *)
+
+Definition builtin_copies : list op :=
+  [ (* flat map *)
+    OCopyMap false [tS (b "e"); tB (b "fg")] 0;
+    (* text on the outer level, then in a nested map *)
+    OCopyMap false [tS (b "e"); TOpen 0; tB (b "fg"); TClose] 0;
+    (* a nested *map with a *string first, a *[]byte on the outer level after it *)
+    OCopyMap false [TOpen 1; tSp (b "hi"); TClose; tBp (b "jk")] 0;
+    (* no text on the outer level: **map, and a map inside it *)
+    OCopyMap false [TOther; TOpen 2; tS (b "lm"); TOpen 0; tB (b "n"); TClose; TClose] 0;
+    (* one []byte / string per level, three levels *)
+    OCopyMap false [tB (b "p"); TOpen 0; tS (b "q"); TOpen 1; tB (b "r"); TClose; TClose] 0;
+    (* []string / [][]byte to *[]string / *[][]byte, the four pairings *)
+    OCopyStrings false true true [b "ab"; b ""; b "c"] 0;
+    OCopyStrings false false false [b "de"; b "f"] 0;
+    OCopyStrings false true false [b "gh"; b "i"] 0;
+    OCopyStrings false false true [b "j"; b "kl"] 0 ].
+
+(* what the buffer went through before: nothing; one value handed out; used and reset; a watched source *)
+Definition builtin_before (tier1 : bool) : list (list op) :=
+  [[]; [OBufferizeString (b "cd") 0]; [OBufferize (b "ab") 0; OReset]] ++
+  (if tier1 then [[OSource false (b "uv")]; [OAcqRel (b "xyz") 0]; [OCopyTo [(true, b "e"); (false, b "fg")] 0]] else []).
+
+(* n = number of values handed out so far; the copy's values are the last ones: ..., source, copy *)
+Definition builtin_after (n : nat) : list op :=
+  [OBufferize (b "ab") 0; OBufferizeString (b "cd") 0; OAcqRel (b "xyz") 0; OAssignBytes (b "42") 0;
+   OCopyTo [(true, b "e"); (false, b "fg")] 0; OReset;
+   CWrite (n - 1) 0 "!"%char; CWrite (n - 2) 0 "?"%char; CAppend (n - 1) (b "Q") 0; CAppend (n - 3) (b "QQQQQQQQQ") 0;
+   CSetUnbuf (n - 1) (b "5") 0; CSetUnbuf (n - 2) (b "123456789") 0; OBufferizeFrom (n - 1) 0; OBufferizeFrom (n - 2) 0;
+   OCopyInto [(true, b "h"); (false, b "i")] 0;
+   OCopyMap true [TOpen 0; tS (b "st"); TClose; tB (b "u")] 0;
+   OCopyStrings true false false [b "v"; b "wx"] 0].
+
+Definition count_adds (ops : list op) : nat := fold_left (fun n o => n + adds o) ops 0.
+
+Definition enum_builtin_with (two : bool) (befores : list (list op)) : list (list op) :=
+  flat_map (fun pre : list op =>
+    flat_map (fun c : op =>
+      let n := count_adds (pre ++ [c])%list in
+      flat_map (fun a : op =>
+                  if two then map (fun a2 => (pre ++ [c; a; a2])%list) (builtin_after (n + adds a))
+                  else [(pre ++ [c; a])%list])
+               (builtin_after n))
+      builtin_copies)
+    befores.
+
+(* quick: one operation after the copy; thorough: more pasts, and two operations after it *)
+Definition enum_builtin (tier1 : bool) : list (list op) :=
+  enum_builtin_with false (builtin_before tier1) ++
+  (if tier1 then enum_builtin_with true (builtin_before false) else []).
 
 (* ---------- random histories ---------- *)
 Definition rnd_bytes (s : rng) (maxlen : nat) : list ascii * rng :=
@@ -180,6 +262,68 @@ Fixpoint rnd_cases (count : nat) (s : rng) (idx : nat) : list string :=
     case_line ("r" ++ nat_to_string idx) cn cv ops :: rnd_cases c s3 (S idx)
   end.
 
+(* ---------- random histories with CopyTo of the built-in inspectors and watched sources ---------- *)
+(* a random map[string]any, pre-order, nesting at most 3 deep, closed at the end *)
+Fixpoint rnd_toks (fuel depth : nat) (s : rng) : list tok * rng :=
+  match fuel with
+  | O => (repeat TClose depth, s)
+  | S f =>
+    let '(c, s1) := rng_nat s 10 in
+    match c with
+    | 0 | 1 | 2 | 3 | 4 =>
+      let '(k, s2) := rng_nat s1 4 in
+      let '(d, s3) := rnd_bytes s2 5 in
+      let '(r, s4) := rnd_toks f depth s3 in
+      (TText (Nat.leb 2 k) (Nat.even k) d :: r, s4)
+    | 5 => let '(r, s2) := rnd_toks f depth s1 in (TOther :: r, s2)
+    | 6 | 7 =>
+      if Nat.ltb depth 3 then
+        let '(i, s2) := rng_nat s1 3 in
+        let '(r, s3) := rnd_toks f (S depth) s2 in (TOpen i :: r, s3)
+      else rnd_toks f depth s1
+    | _ =>
+      match depth with
+      | O => rnd_toks f 0 s1
+      | S dp => let '(r, s2) := rnd_toks f dp s1 in (TClose :: r, s2)
+      end
+    end
+  end.
+
+Fixpoint rnd_list (k : nat) (s : rng) : list (list ascii) * rng :=
+  match k with
+  | O => ([], s)
+  | S k' => let '(d, s1) := rnd_bytes s 4 in let '(r, s2) := rnd_list k' s1 in (d :: r, s2)
+  end.
+
+Definition rnd_op2 (s : rng) (n : nat) : op * rng :=
+  let '(c, s1) := rng_nat s 12 in
+  match c with
+  | 0 | 1 => let '(re, s2) := rng_nat s1 3 in let '(fu, s3) := rng_nat s2 8 in
+             let '(ts, s4) := rnd_toks (S fu) 0 s3 in (OCopyMap (Nat.eqb re 0) ts 0, s4)
+  | 2 => let '(re, s2) := rng_nat s1 3 in let '(k, s3) := rng_nat s2 4 in let '(cnt, s4) := rng_nat s3 4 in
+         let '(l, s5) := rnd_list cnt s4 in (OCopyStrings (Nat.eqb re 0) (Nat.even k) (Nat.leb 2 k) l 0, s5)
+  | 3 => let '(k, s2) := rng_nat s1 2 in let '(d, s3) := rnd_bytes s2 6 in (OSource (Nat.eqb k 0) d, s3)
+  | _ => rnd_op s1 n
+  end.
+
+Fixpoint rnd_ops2 (len : nat) (s : rng) (n : nat) : list op * rng :=
+  match len with
+  | O => ([], s)
+  | S l => let '(o, s1) := rnd_op2 s n in
+           let '(r, s2) := rnd_ops2 l s1 (n + adds o) in (o :: r, s2)
+  end.
+
+Fixpoint rnd_cases2 (count : nat) (s : rng) (idx : nat) : list string :=
+  match count with
+  | O => []
+  | S c =>
+    let '(len, s1) := rng_nat s 24 in
+    let '(ops, s2) := rnd_ops2 (S len) s1 0 in
+    let '(ci, s3) := rng_nat s2 3 in
+    let '(cn, cv) := nth ci (caps_of ops) ("cap0", 0) in
+    case_line ("q" ++ nat_to_string idx) cn cv ops :: rnd_cases2 c s3 (S idx)
+  end.
+
 Fixpoint number {A} (i : nat) (l : list A) : list (nat * A) :=
   match l with [] => [] | x :: r => (i, x) :: number (S i) r end.
 
@@ -192,4 +336,10 @@ Definition cases (tier : Z) (seed : Z) : list string :=
               map (fun c : string * nat => case_line ("e" ++ nat_to_string i ++ fst c) (fst c) (snd c) ops)
                   (caps_of ops))
            (number 0 (enum depth 0)) ++
-  rnd_cases nrand (rng_of_seed seed) 0.
+  rnd_cases nrand (rng_of_seed seed) 0 ++
+  flat_map (fun p : nat * list op =>
+              let '(i, ops) := p in
+              map (fun c : string * nat => case_line ("m" ++ nat_to_string i ++ fst c) (fst c) (snd c) ops)
+                  (caps_of ops))
+           (number 0 (enum_builtin (negb (Z.eqb tier 0)))) ++
+  rnd_cases2 (if Z.eqb tier 0 then 60 else 1500) (rng_of_seed (seed + 7)%Z) 0.
